@@ -19,6 +19,8 @@ pub enum Variant {
     /// an extra variable (id 9) of a non-binary kind that the objective does not use; optionally
     /// mentioned by a removed constraint. The objective is still a function of binaries only.
     UnusedNonBinary { kind: i32, in_removed: bool },
+    /// the objective uses an id for which no decision variable is defined (so it is not a binary variable)
+    UndefinedVariable { id: u64 },
 }
 
 #[derive(Clone, Debug, Serialize, Deserialize)]
@@ -50,6 +52,7 @@ fn build(case: &Case) -> InstRep {
                 });
             }
         }
+        Variant::UndefinedVariable { id } => vars.retain(|v| v.id != *id),
         Variant::NonBinary { id, kind } => {
             for v in vars.iter_mut() {
                 if v.id == *id {
@@ -269,6 +272,7 @@ fn variant_tag(v: &Variant) -> &'static str {
         Variant::Maximize => "maximize",
         Variant::UnusedNonBinary { in_removed: false, .. } => "unused-non-binary-variable",
         Variant::UnusedNonBinary { in_removed: true, .. } => "non-binary-variable-in-removed-constraint",
+        Variant::UndefinedVariable { .. } => "undefined-variable",
         Variant::NonBinary { kind, .. } => match *kind {
             KIND_INTEGER => "integer-variable",
             KIND_CONTINUOUS => "continuous-variable",
@@ -357,6 +361,7 @@ pub fn run(ctx: &Ctx) -> Finish {
         }
         let nz: BTreeSet<u64> = nonzero_term_sets(f).into_iter().flatten().collect();
         for id in nz {
+            check_case(l, &Case { objective: f.clone(), binary_ids: vec![1, 2, 7], variant: Variant::UndefinedVariable { id } });
             for kind in [KIND_INTEGER, KIND_CONTINUOUS, 4, 5, 0] {
                 check_case(l, &Case { objective: f.clone(), binary_ids: vec![1, 2, 7], variant: Variant::NonBinary { id, kind } });
             }
@@ -385,7 +390,7 @@ pub fn run(ctx: &Ctx) -> Finish {
     });
     Finish {
         level: "model_checking",
-        rule: "every objective message of the C01 representation alphabet over 3 binary variables (all variants, repeated ids inside monomials, x^2, cancelling terms, split constants, zeros) and deterministic all-monomial families for n = 4..12, degree <= 4; PUBO and QUBO dictionaries checked on ALL 2^n assignments against the exact objective, keys canonical, no zero coefficient stored; every refusal condition (active constraint, maximise, used integer / continuous variable at each position, >2 distinct variables for QUBO) on every base; a removed constraint alone, a defined non-binary variable the objective does not use, and such a variable mentioned only by a removed constraint must not cause refusal".into(),
+        rule: "every objective message of the C01 representation alphabet over 3 binary variables (all variants, repeated ids inside monomials, x^2, cancelling terms, split constants, zeros) and deterministic all-monomial families for n = 4..12, degree <= 4; PUBO and QUBO dictionaries checked on ALL 2^n assignments against the exact objective, keys canonical, no zero coefficient stored; every refusal condition (active constraint, maximise, used integer / continuous / semi-* / unspecified / undefined variable at each position, >2 distinct variables for QUBO) on every base; a removed constraint alone, a defined non-binary variable the objective does not use, and such a variable mentioned only by a removed constraint must not cause refusal".into(),
         bounds: json!({"n_small": 3, "n_large": "4..=12", "degree_max": 4, "assignments": "all 2^n"}),
         exhaustive: true,
     }
